@@ -8,14 +8,19 @@ ROOT = os.path.dirname(os.path.dirname(os.path.abspath(__file__)))
 ALL = [f"C{i:02d}" for i in range(1, 20)]
 
 # property -> (design section, level text, level note, technique)
+GENERIC_TEXT = ("Bounded symbolic execution of the real code (symx + z3): for every enumerated shape / constructor input every feasible "
+                "path is explored with the numeric inputs as symbolic variables and each assertion is discharged by the solver for all "
+                "values at once; every path has a concrete twin run on the real code and every counterexample is replayed concretely. ")
+GENERIC_NOTE = ("Trusted: z3, the symx value classes (validated per path by the concrete twin), exact reals instead of IEEE floats (claim stated "
+                "for the dyadic grid), shapes bounded as stated in the evidence file; stubs listed in the evidence 'assumptions'.")
+GENERIC_TECH = "symbolic execution of the real Python code on z3-backed values; per-path validity queries (QF_LRA/QF_LIA/UF)"
+
+# property -> (design section, specific text)
 CLAIMED = {
-    'C04': ("6/C04",
-            "Bounded symbolic execution of the real duration/start-time code (symx + z3): for every enumerated program shape, every "
-            "feasible path is explored with all fixed durations as unbounded symbolic reals and the span equation is discharged by the "
-            "solver for all values at once; every path has a concrete twin run and every counterexample is replayed on the real code.",
-            "Trusted: z3 (QF_LRA), the symx value classes (validated per path by the concrete twin), reals instead of IEEE floats "
-            "(claim stated for the dyadic grid), program shapes bounded as stated in the evidence.",
-            "symbolic execution of the real Python code on z3-backed values, per-path validity queries (QF_LRA)"),
+    'C01': ("6/C01", "Relation equations are checked per clause against the times the library reports for the referenced operation, for all durations >= 0."),
+    'C04': ("6/C04", "Span equation duration == max end - min start over the listed contents (z3 If-chains) for all durations >= 0, plus the follower clause."),
+    'C12': ("6/C12", "Tiling, containment, disjointness, cover, translation and estimate clauses for unbounded symbolic round counts."),
+    'C19': ("6/C19", "Match/identity relations for unbounded symbolic ids and names; edge hash with uninterpreted hash functions; de-duplication on symbolic sequences."),
 }
 
 NOT_YET = "check not built yet in this round (work in progress; see DESIGN.md section 6 for the plan)"
@@ -27,7 +32,8 @@ def main():
     for pid in ALL:
         if pid not in CLAIMED:
             continue
-        sec, text, note, tech = CLAIMED[pid]
+        sec, spec = CLAIMED[pid]
+        text, note, tech = GENERIC_TEXT + spec, GENERIC_NOTE, GENERIC_TECH
         checks.append({
             'property_id': pid,
             'quick_cmd': f"./check {pid} --tier quick",
